@@ -186,6 +186,8 @@ func sharingConfigs(env *engine.Env) []fixture.Doc {
 		d["provides"] = []any{"virt-a | virt-b", "Virt-C"}
 		d["conflicts"] = []any{"OldPkg (<< 2)"}
 		d["replaces"] = []any{"OldPkg"}
+		// (a package name with an underscore, a dot and a plus sign: nothing that runs rewrites the settings' name)
+		d["name"] = "lib_my-tool.x+1"
 		d["ipk"] = map[string]any{"alternatives": []any{map[string]any{"priority": 100, "target": "usr/bin/vi", "link_name": "/usr/bin//x"}, map[string]any{"priority": 50, "target": "/usr/./bin/app", "link_name": "bin/editor/"}}}
 		d["rpm"] = map[string]any{"buildhost": "buildhost.example", "prefixes": []any{"usr//local", "/opt/./x/"}}
 	}))
